@@ -97,7 +97,7 @@ func newGenericContextualizer(
 		Payload         template.Template `mapstructure:"payload"`
 		CacheTTL        *time.Duration    `mapstructure:"cache_ttl"`
 		ContinueOnError bool              `mapstructure:"continue_pipeline_on_error"`
-		Values          values.Values     `mapstructure:"values"`
+		Values          values.Values     `mapstructure:"values"                     validate:"dive,required"`
 	}
 
 	var conf Config
@@ -200,7 +200,7 @@ func (h *genericContextualizer) WithConfig(rawConfig map[string]any) (Contextual
 		Payload         template.Template `mapstructure:"payload"`
 		CacheTTL        *time.Duration    `mapstructure:"cache_ttl"`
 		ContinueOnError *bool             `mapstructure:"continue_pipeline_on_error"`
-		Values          values.Values     `mapstructure:"values"`
+		Values          values.Values     `mapstructure:"values"                     validate:"dive,required"`
 	}
 
 	var conf Config
